@@ -44,6 +44,14 @@ def main(p):
             'msm': ({'k': I(x=2.0)} if t else {}, (lambda m: setattr(m.m_sm['k'], 'x', 2.0)) if t else (lambda m: None)),
             'dot2': ('L' if t else '', lambda m: setattr(m.inner, 'leaf', 'L' if t else '')),
             'dot3': ('D' if t else '', lambda m: setattr(m.outer.mid, 'deep', 'D' if t else '')),
+            'rstruct': ([{'k': 'v'}, {'n': 1.0}] if t else [],
+                        (lambda m: (m.r_struct.add().update({'k': 'v'}), m.r_struct.add().update({'n': 1.0}))) if t else (lambda m: None)),
+            'dotr': (['p', 'q'] if t else [], (lambda m: m.inner.tags.extend(['p', 'q'])) if t else (lambda m: m.inner.SetInParent())),
+            'dotm': (pkg.Mid(deep='dd', other=3) if t else pkg.Mid(),
+                     (lambda m: (setattr(m.outer.mid, 'deep', 'dd'), setattr(m.outer.mid, 'other', 3))) if t else (lambda m: m.outer.mid.SetInParent())),
+            'dotmap': ({'k': 'v'} if t else {}, (lambda m: m.inner.attrs.update({'k': 'v'})) if t else (lambda m: m.inner.SetInParent())),
+            'dotrm': ([I(x=1.0), I(label='z')] if t else [],
+                      (lambda m: (m.inner.parts.add(x=1.0), m.inner.parts.add(label='z'))) if t else (lambda m: m.inner.SetInParent())),
             'reserved': ('c' if t else '', lambda m: setattr(m, 'class', 'c' if t else '')),
             'module': ('m' if t else '', lambda m: setattr(m, 'flatten', 'm' if t else '')),
         }
@@ -72,17 +80,29 @@ def main(p):
         """Every assignment of the cell's parameters -> (label, kwargs, expected dyn, alt expected dyn)."""
         Dreq = p.cls(cell['req'])
         vals = dep_values if cell['dep'] else api_values
+        DOTTED = ('dot2', 'dot3', 'dotr', 'dotm', 'dotmap', 'dotrm')
         for assign in itertools.product((ABSENT, TYPICAL, FALSY), repeat=len(cell['kinds'])):
             kwargs, exp = {}, Dreq()
-            alt = Dreq()     # dotted falsy: the parent message may or may not be marked present
+            optional = []     # dotted falsy: each parent message may or may not be marked present, independently
             for kind, param, variant in zip(cell['kinds'], cell['params'], assign):
                 if variant == ABSENT:
                     continue
                 value, apply = vals(kind, variant)
                 kwargs[param] = value
                 apply(exp)
-                if not (kind in ('dot2', 'dot3') and variant == FALSY):
-                    apply(alt)
+                if kind in DOTTED and variant == FALSY:
+                    optional.append(apply)
+                    continue
+            alt = []
+            for mask in itertools.product((False, True), repeat=len(optional)):
+                m = Dreq()
+                for kind, param, variant in zip(cell['kinds'], cell['params'], assign):
+                    if variant != ABSENT and not (kind in DOTTED and variant == FALSY):
+                        vals(kind, variant)[1](m)
+                for on, ap in zip(mask, optional):
+                    if on:
+                        ap(m)
+                alt.append(m)
             yield '/'.join(assign) or 'none', kwargs, exp, alt, Dreq
 
     def request_object(cell, exp):
@@ -106,7 +126,7 @@ def main(p):
             got = Dreq.FromString(log[0]['raw'])
         except Exception as e:
             return fail(cell, client, label, f'{how}-undecodable', e)
-        if got != exp and got != alt:
+        if got != exp and got not in alt:
             fail(cell, client, label, f'{how}-mismatch', f'sent {probelib.short(got)!r} expected {probelib.short(exp)!r}')
         else:
             out['outcomes']['ok'] = out['outcomes'].get('ok', 0) + 1
